@@ -21,7 +21,7 @@ PROPS = {
     'C02': P(flags=['g', 'x', 'e'], lang=True, stages=ALL_LOCAL, theorems=('C02.v', None), n=(1500, 40000), thresholds=False),
     'C03': P(flags=['d', 'D', 's', 'S', 'w', 'W', 'i', 'e', 'x', 'g', 'r', 'ns', 'ne'], need_any=['d', 'D', 's', 'S', 'w', 'W'], lang=True,
              stages=['clusters_k', 'clusters_r', 'trie', 'min', 'expr', 'final', 'out'], theorems=('C03.v', None), n=(1500, 40000)),
-    'C04': P(flags=['i', 'g', 'x', 'e', 'ns', 'ne'], force=['i'], lang=True, stages=['norm', 'clusters_g', 'trie', 'min', 'expr', 'final', 'out'],
+    'C04': P(flags=['i', 'g', 'x', 'e', 'ns', 'ne', 'd', 'w', 's', 'D', 'W', 'S'], force=['i'], lang=True, stages=['norm', 'clusters_g', 'clusters_k', 'trie', 'min', 'expr', 'final', 'out'],
              theorems=('C04.v', None), n=(1500, 40000), alphabets=['cased', 'ab', 'mixed', 'bound'], thresholds=False),
     'C05': P(flags=['r', 'd', 'w', 's', 'i', 'e', 'x', 'g', 'ns', 'ne'], force=['r'], lang=True, stages=['clusters_r', 'trie', 'min', 'expr', 'final', 'out'],
              theorems=('C05.v', None), n=(1500, 40000)),
@@ -30,10 +30,10 @@ PROPS = {
     'C07': P(flags=casegen.FLAGS, lang=False, stages=ALL_LOCAL + ['selfcheck'], theorems=('C07.v', None), n=(3000, 80000)),
     'C08': P(flags=['ns', 'ne', 'x', 'i', 'd', 'w', 'r', 'g'], need_any=['ns', 'ne'], lang=True, stages=['expr', 'final', 'out', 'selfcheck'],
              theorems=('C08.v', None), n=(2000, 50000)),
-    'C09': P(flags=['d', 'D', 's', 'S', 'w', 'W'], need_any=['d', 'D', 's', 'S', 'w', 'W'], lang=True, stages=['clusters_k'],
+    'C09': P(flags=['d', 'D', 's', 'S', 'w', 'W', 'i', 'e', 'x'], need_any=['d', 'D', 's', 'S', 'w', 'W'], lang=True, stages=['clusters_k'],
              theorems=('C09.v', None), n=(600, 5000), special='c09'),
     'C11': P(flags=['e', 'E', 'r', 'x', 'd', 'w', 'g', 'i', 'ns', 'ne'], need_any=['e', 'E'], lang=True, stages=['expr', 'final', 'out'],
-             theorems=('C11.v', None), n=(1500, 40000), alphabets=['astral', 'bound', 'marks', 'mixed', 'cased', 'ws']),
+             theorems=('C11.v', None), n=(1500, 40000), alphabets=['astral', 'bound', 'marks', 'mixed', 'cased', 'ws', 'clusters', 'metaext']),
     'C13': P(flags=['r', 'd', 'w', 'x', 'g', 'e', 'i', 'ns', 'ne'], lang=False, stages=['clusters_r', 'trie', 'out'], theorems=('C13.v', None),
              n=(2000, 50000), alphabets=['a', 'ab', 'abc', 'ab.-', 'meta', 'digits']),
     'C15': P(flags=casegen.FLAGS, force=['c'], lang=False, stages=['out', 'selfcheck'], theorems=('C15.v', None), n=(2500, 60000)),
@@ -146,6 +146,20 @@ def select_cases(pid, spec, tier, seed):
             if 'E' in fl and 'e' in fl:
                 fl.remove('e')
             fam.append({'tcs': sub, 'f': ','.join(fl), 'mr': 1, 'ms': 1, 'alpha': 'dense'})
+    if pid in ('C01', 'C03', 'C05', 'C06', 'C07', 'C11', 'C13') and 'r' in spec['flags']:
+        # multi-code-point clusters that grex keeps whole, repeated: grouping and "single character" decisions
+        # (seeds C05d, C06c, C11d, C01c hide behind exactly these inputs)
+        ncl = 500 if tier == 'quick' else 6000
+        cl_alph = [a for a in casegen.ALPHABETS if a[0] in ('clusters', 'metaext', 'marks')]
+        ff = list(spec.get('force') or [])
+        for c in casegen.generate(seed * 13 + 5, ncl, allow_flags=spec['flags'], force_flags=ff + (['r'] if 'r' not in ff else []),
+                                  alphabets=cl_alph, thresholds=False):
+            fl = flags_of(c)
+            if spec.get('need_any') and not any(f in fl for f in spec['need_any']):
+                fl.append(random.Random(c['id']).choice(spec['need_any']))
+                c['f'] = ','.join(fl)
+            c['alpha'] = 'clusters+r'
+            fam.append(c)
     allc = corpus + out + fam
     for i, c in enumerate(allc):
         c['id'] = i
@@ -439,6 +453,14 @@ def c09_cases(st, tier, seed):
         for x in rnd.sample(pts, min(len(pts), 400)):
             fl = [f for f in ['d', 'D', 's', 'S', 'w', 'W'] if rnd.random() < 0.5]
             out.append({'tcs': [[x]], 'f': ','.join(fl), 'mr': 1, 'ms': 1, 'alpha': 'boundary'})
+    # the classification must not depend on the other options: the same points with (?i) (outside K3's skew set, which is not
+    # a finding about this property), escaping and verbose mode — seeds C04d / C09d lower-cased the class tokens under -i
+    skew = oracle_skew(d)
+    for x in (pts if tier != 'quick' else rnd.sample(pts, min(len(pts), 600))):
+        extra = rnd.choice(['i', 'i', 'e', 'x'])
+        if extra == 'i' and (x in skew or chr(x).lower() != chr(x) and len(chr(x).lower()) != 1):
+            continue
+        out.append({'tcs': [[x]], 'f': rnd.choice(['d', 'D', 's', 'S', 'w', 'W']) + ',' + extra, 'mr': 1, 'ms': 1, 'alpha': 'boundary'})
     return out
 
 def setup_extra():
